@@ -28,3 +28,76 @@ def ddmin(ops: Ops, still_fails: Callable[[Ops], bool], max_tests: int = 400) ->
                 break
             n = min(len(cur), n * 2)
     return cur, tests
+
+
+# ---- argument-level simplification: smaller specs inside the surviving ops ------------------------------------
+
+
+def _specs(x: Any, path: tuple = ()) -> list[tuple]:
+    """Paths of all tree specs ({"c":..,"ch":..}) nested anywhere in an op."""
+    out: list[tuple] = []
+    if isinstance(x, dict):
+        if "c" in x and "ch" in x:
+            out.append(path)
+        for k, v in x.items():
+            out.extend(_specs(v, path + (k,)))
+    elif isinstance(x, list):
+        for i, v in enumerate(x):
+            out.extend(_specs(v, path + (i,)))
+    return out
+
+
+def _get(x: Any, path: tuple) -> Any:
+    for k in path:
+        x = x[k]
+    return x
+
+
+def _candidates(op: dict[str, Any]) -> list[dict[str, Any]]:
+    import copy
+
+    out: list[dict[str, Any]] = []
+    for path in _specs(op):
+        spec = _get(op, path)
+        # drop tuple elements / optional children
+        for f, v in spec.get("ch", {}).items():
+            if isinstance(v, list) and v:
+                for i in range(len(v)):
+                    c = copy.deepcopy(op)
+                    del _get(c, path)["ch"][f][i]
+                    out.append(c)
+            elif isinstance(v, dict):
+                c = copy.deepcopy(op)
+                _get(c, path)["ch"][f] = None
+                out.append(c)
+        # drop explicit property values (defaults apply)
+        for pn in list(spec.get("p", {})):
+            c = copy.deepcopy(op)
+            del _get(c, path)["p"][pn]
+            out.append(c)
+        if spec.get("o") not in (None, "no"):
+            c = copy.deepcopy(op)
+            _get(c, path)["o"] = "no"
+            out.append(c)
+    return out
+
+
+def simplify_args(ops: Ops, still_fails: Callable[[Ops], bool], max_tests: int = 250) -> tuple[Ops, int]:
+    tests = 0
+    cur = list(ops)
+    progress = True
+    while progress and tests < max_tests:
+        progress = False
+        for i in range(len(cur)):
+            for cand_op in _candidates(cur[i]):
+                if tests >= max_tests:
+                    break
+                cand = cur[:i] + [cand_op] + cur[i + 1 :]
+                tests += 1
+                if still_fails(cand):
+                    cur = cand
+                    progress = True
+                    break
+            if progress:
+                break
+    return cur, tests
